@@ -651,7 +651,50 @@ func mutate(t *rapid.T, d []byte) []byte {
 			d = append(d, rapid.Byte().Draw(t, "b"))
 			continue
 		}
-		switch rapid.IntRange(0, 8).Draw(t, "mut") {
+		switch rapid.IntRange(0, 13).Draw(t, "mut") {
+		case 12, 13: // a 16/32-bit field that looks like the length of the LAST element (it points within 8 bytes of the
+			// end of the input) is made to point 1..3 bytes past the end, or exactly at it
+			type cand struct{ p, w, rest int }
+			var cs []cand
+			for p := 0; p+2 <= len(d); p++ {
+				rest := len(d) - p - 2
+				if v := int(binary.BigEndian.Uint16(d[p:])); v > 0 && v <= rest && rest-v <= 8 {
+					cs = append(cs, cand{p, 2, rest})
+				}
+				if p+4 <= len(d) {
+					rest4 := len(d) - p - 4
+					if v := int(binary.BigEndian.Uint32(d[p:])); v > 0 && v <= rest4 && rest4-v <= 8 {
+						cs = append(cs, cand{p, 4, rest4})
+					}
+				}
+			}
+			if len(cs) == 0 {
+				continue
+			}
+			c := cs[rapid.IntRange(0, len(cs)-1).Draw(t, "lenfield")]
+			nv := c.rest + rapid.SampledFrom([]int{1, 1, 2, 3, 0}).Draw(t, "over")
+			if c.w == 2 {
+				binary.BigEndian.PutUint16(d[c.p:], uint16(nv))
+			} else {
+				binary.BigEndian.PutUint32(d[c.p:], uint32(nv))
+			}
+		case 9: // add a small delta to a 16- or 32-bit big-endian field (length fields that are off by a few)
+			delta := rapid.SampledFrom([]int{1, -1, 2, -2, 3, 4, 8, -8, 16}).Draw(t, "delta")
+			if rapid.Bool().Draw(t, "wide") && len(d) >= 4 {
+				p := rapid.IntRange(0, len(d)-4).Draw(t, "pos")
+				binary.BigEndian.PutUint32(d[p:], binary.BigEndian.Uint32(d[p:])+uint32(delta))
+			} else if len(d) >= 2 {
+				p := rapid.IntRange(0, len(d)-2).Draw(t, "pos")
+				binary.BigEndian.PutUint16(d[p:], binary.BigEndian.Uint16(d[p:])+uint16(delta))
+			}
+		case 10: // drop a few bytes at the end
+			k := rapid.IntRange(1, 8).Draw(t, "tail")
+			if k > len(d) {
+				k = len(d)
+			}
+			d = d[:len(d)-k]
+		case 11: // append a few bytes
+			d = append(d, rapid.SliceOfN(rapid.SampledFrom([]byte{0, 0, 1, 3, 0x80, 0xff}), 1, 6).Draw(t, "more")...)
 		case 0: // flip a bit
 			p := rapid.IntRange(0, len(d)*8-1).Draw(t, "bit")
 			d[p/8] ^= 1 << uint(7-p%8)
